@@ -13,6 +13,12 @@ var netScenario = scenarioDef{"NET", 1, genNetConfig, RunNet}
 
 func plan(prop string) []scenarioDef {
 	switch prop {
+	case "C15":
+		return []scenarioDef{{"COMP-contexts", 30, genCtxConfig, RunCtxComp}, {"COMP-contexts-sweep", 1, genCtxSweepConfig, RunCtxSweep}}
+	case "C19":
+		return []scenarioDef{{"COMP-timer", 1, genTimerConfig, RunTimerComp}}
+	case "C17":
+		return []scenarioDef{{"COMP-filter", 39, genFilterConfig, RunFilterComp}, {"COMP-filter-sweep", 1, genFilterSweepConfig, RunFilterSweep}}
 	default:
 		return []scenarioDef{netScenario}
 	}
